@@ -59,3 +59,18 @@ Example C15_example :
   | _ => False
   end.
 Proof. vm_compute. repeat split; reflexivity. Qed.
+
+(* the exchanged-types history: columns a (numeric) and b (text) are consulted, then exchange their
+   dtypes by two plain assignments (labels and the multiset of dtypes are as remembered, the positions
+   are not), and the next consultation refuses - the snapshot is compared position by position *)
+Example C15_swap_example :
+  let a : str := [97%N] in let b : str := [98%N] in
+  match make_frame [(a, (KNumeric, 1%N)); (b, (KText, 0%N))] false true None with
+  | (f0, None) =>
+      snd (consult (run f0 [SConsult;
+                            SData [(a, (KText, 0%N)); (b, (KText, 0%N))] false;
+                            SData [(a, (KText, 0%N)); (b, (KNumeric, 1%N))] false])) = Some EColumnUnit
+      /\ snd (consult (run f0 [SConsult])) = None
+  | _ => False
+  end.
+Proof. vm_compute. repeat split; reflexivity. Qed.
